@@ -26,6 +26,7 @@ type Obligation struct {
 	Text    string // human-readable source of the goal
 	Cover   bool   // expects sat
 	Group   string // assumption group (see Clause.Group)
+	Known   bool   // listed in known_findings.json: a short attempt is enough
 	Unit    *FnVerifier
 	Pos     string
 
@@ -82,6 +83,7 @@ type Frame struct {
 	top    bool
 	params map[string]Val
 	parent *Frame
+	entry  *State // pre-state of this activation (inlined callees: old() is relative to the call)
 }
 
 type exitInfo struct {
@@ -97,6 +99,7 @@ type loopInfo struct {
 	spec    *LoopSpec
 	names   map[string]ssa.Value // source names visible in invariants
 	mods    *ModSet
+	pre     *State // state on first arrival at the header (for sinceloop())
 }
 
 type outOfSubset struct{ msg string }
@@ -549,6 +552,7 @@ func (fr *Frame) enterLoop(b *ssa.BasicBlock, li *loopInfo, st *State) *State {
 		v.unsupported("loop %d in %s (block %d) has no invariant", li.ordinal, fr.fn, b.Index)
 	}
 	props := fr.propsOf()
+	li.pre = st.clone()
 	// init: invariant holds on entry (phis = entry values, set by mergeInto)
 	for k, inv := range li.spec.Invariants {
 		env := fr.specEnv(st, li)
@@ -559,6 +563,7 @@ func (fr *Frame) enterLoop(b *ssa.BasicBlock, li *loopInfo, st *State) *State {
 	}
 	// generic iteration: havoc
 	pre := st
+	li.pre = pre.clone()
 	st = st.clone()
 	mods := li.mods
 	for _, ki := range mods.Keys {
@@ -755,6 +760,12 @@ func (fr *Frame) execInstr(st *State, in ssa.Instruction) {
 		}
 		r := v.newRef(st, hint)
 		fr.vals[x] = Val{T: r}
+		if tn, ok := types.Unalias(t).(*types.Named); ok && tn.Obj().Pkg() != nil && tn.Obj().Pkg().Path() == "bytes" && tn.Obj().Name() == "Buffer" {
+			// a fresh bytes.Buffer is an empty stream
+			_, sn, sp := v.streamKeys()
+			v.setHeap(st, sn, sto(v.heap(st, sn), r, "0"))
+			v.setHeap(st, sp, sto(v.heap(st, sp), r, "0"))
+		}
 		// zero-initialise
 		if a, ok := t.Underlying().(*types.Array); ok && !isOpaqueNamed(t) {
 			k := v.elemKey(a.Elem())
@@ -850,7 +861,7 @@ func (fr *Frame) execInstr(st *State, in ssa.Instruction) {
 		n := fr.term(st, x.Len)
 		c := fr.term(st, x.Cap)
 		el := x.Type().Underlying().(*types.Slice).Elem()
-		fr.safetyObl(st, "alloc", and("(<= 0 "+n+")", "(<= "+n+" "+c+")"), "make length non-negative: "+x.String(), x.Pos())
+		fr.safetyObl(st, "alloc", and("(<= 0 "+n+")", "(<= "+n+" "+c+")", "(< "+c+" 140737488355328)"), "make length within [0, 2^47): "+x.String(), x.Pos())
 		fr.allocBound(st, n, x)
 		r := v.newRef(st, "mk")
 		k := v.elemKey(el)
@@ -1279,6 +1290,21 @@ func (v *FnVerifier) convert(st *State, x string, from, to types.Type) string {
 	if fs == ts {
 		return x
 	}
+	if fs == "Str" && ts == "Slice" {
+		// []byte(s): fresh array whose blob is the string's encoding
+		if sl, ok := to.Underlying().(*types.Slice); ok {
+			if b, ok := sl.Elem().Underlying().(*types.Basic); ok && b.Kind() == types.Uint8 {
+				return v.strToBytes(st, x)
+			}
+		}
+	}
+	if fs == "Slice" && ts == "Str" {
+		if sl, ok := from.Underlying().(*types.Slice); ok {
+			if b, ok := sl.Elem().Underlying().(*types.Basic); ok && b.Kind() == types.Uint8 {
+				return v.bytesToStr(st, x)
+			}
+		}
+	}
 	name := "conv!" + sanitize(fs) + "!" + sanitize(ts)
 	f := v.smt.declareFun(name, []string{fs}, ts)
 	if ts == "Slice" {
@@ -1286,4 +1312,36 @@ func (v *FnVerifier) convert(st *State, x string, from, to types.Type) string {
 		v.smt.note("string<->[]byte conversions are uninterpreted")
 	}
 	return app(f, x)
+}
+
+func (v *FnVerifier) strCodecFuns() (enc, dec, blen, slen string) {
+	enc = v.smt.declareFun("uf!strEnc", []string{"Str"}, "Int")
+	dec = v.smt.declareFun("uf!strDec", []string{"Int"}, "Str")
+	blen = v.smt.declareFun("uf!blobLen", []string{"Int"}, "Int")
+	slen = v.smt.declareFun("str.len", []string{"Str"}, "Int")
+	ax := fmt.Sprintf("(forall ((s Str)) (! (and (= (%s (%s s)) s) (= (%s (%s s)) (%s s)) (>= (%s s) 0)) :pattern ((%s s))))", dec, enc, blen, enc, slen, slen, enc)
+	if !v.smt.ufs[ax] {
+		v.smt.ufs[ax] = true
+		v.smt.assert(ax)
+		v.smt.note("string <-> []byte conversions are an exact inverse pair (content by blob identity)")
+	}
+	return
+}
+
+func (v *FnVerifier) strToBytes(st *State, s string) string {
+	enc, _, _, slen := v.strCodecFuns()
+	r := v.newRef(st, "strbytes")
+	bk := v.blobKey()
+	v.setHeap(st, bk, sto(v.heap(st, bk), r, app(enc, s)))
+	n := app(slen, s)
+	return fmt.Sprintf("(mk-slice %s 0 %s %s)", r, n, n)
+}
+
+func (v *FnVerifier) bytesToStr(st *State, b string) string {
+	_, dec, blen, slen := v.strCodecFuns()
+	blob := sel(v.heap(st, v.blobKey()), "(s.arr "+b+")")
+	str := v.smt.define("bytes2str", "Str", app(dec, blob))
+	// a string made from a slice has the slice's length (when the slice spans its blob)
+	v.smt.assert(implies(eq(app(blen, blob), "(s.len "+b+")"), eq(app(slen, str), "(s.len "+b+")")))
+	return str
 }
